@@ -39,7 +39,7 @@ import (
 // replaced by the next attempt; a finished failed routine left in the slot is handed to every later connect() and
 // the client never dials again.
 func init() {
-	register(&Rule{ID: "R07.9", Props: []string{"C07", "C03"}, Floor: 1,
+	register(&Rule{ID: "R07.9", Props: []string{"C07", "C03", "C20", "C09"}, Floor: 1,
 		Doc: "no mutex that a Send holds while blocked on flow control is acquired on the path that emits window updates (ReceiveAsync -> sendWindow and below)",
 		Run: runR07_9})
 	register(&Rule{ID: "R03.8", Props: []string{"C03", "C18"}, Floor: 12,
@@ -173,6 +173,17 @@ func runR07_9(c *Ctx, r *R) {
 				callees[root] = append(callees[root], h)
 				callers[h] = append(callers[h], root)
 			}
+			// a call through an interface of the package (internalChannel.receive): every method of that name
+			if call.Common().IsInvoke() {
+				if m := call.Common().Method; m.Pkg() != nil && m.Pkg().Path() == pkgPath("mpx") {
+					for _, h := range funcs {
+						if h.Parent() == nil && h.Signature.Recv() != nil && h.Name() == m.Name() {
+							callees[root] = append(callees[root], h)
+							callers[h] = append(callers[h], root)
+						}
+					}
+				}
+			}
 		}
 	}
 	path := map[*ssa.Function]bool{sw: true}
@@ -187,6 +198,26 @@ func runR07_9(c *Ctx, r *R) {
 					seen[g] = true
 					path[g] = true
 					work = append(work, g)
+				}
+			}
+		}
+	}
+	// ... and everything the receive loop runs: the window update that unblocks our sender ARRIVES through it (and
+	// so does the peer's close), so a frame handler that waits for the mutex of a blocked Send stalls the whole
+	// connection
+	for _, f := range funcs {
+		if f.Name() == "receiveLoop" && f.Parent() == nil && typeIsRecv(f, "conn") {
+			work := []*ssa.Function{f}
+			seen := map[*ssa.Function]bool{f: true}
+			for len(work) > 0 {
+				g := work[0]
+				work = work[1:]
+				path[g] = true
+				for _, h := range callees[g] {
+					if !seen[h] {
+						seen[h] = true
+						work = append(work, h)
+					}
 				}
 			}
 		}
